@@ -4,5 +4,5 @@
 (* all nodes (TRUE) or every non-empty subset (FALSE); qmax from qmaxes                 *)
 EXTENDS FindPathsImpl
 QDom == {<<3, FALSE, {1, 2, 3, 4}>>, <<4, TRUE, {4}>>}
-TDom == {<<2, FALSE, {1, 2, 3}>>, <<3, FALSE, {1, 2, 3, 4}>>, <<4, FALSE, {1, 3, 4, 5}>>}
+TDom == {<<2, FALSE, {1, 2, 3}>>, <<3, FALSE, {1, 2, 3, 4}>>, <<4, FALSE, {4}>>, <<4, TRUE, {1, 2, 3, 5}>>}
 ====
